@@ -582,6 +582,30 @@ func VerifASAACL(cmdInfo string) {
 			vf.Cover("object-group deleted")
 		}
 	}
+	// tags for known defect families
+	moveTag := ""
+	for _, c := range changes {
+		if strings.Contains(c, "\n") {
+			moveTag = " [script moves a line (joined delete+add)]"
+		}
+	}
+	twinTag := ""
+	for i, g := range dA.groups {
+		for _, h := range dA.groups[:i] {
+			if len(g.members) == len(h.members) {
+				same := true
+				for j := range g.members {
+					if g.members[j] != h.members[j] {
+						same = false
+					}
+				}
+				if same {
+					twinTag = " [device has two identical object-groups]"
+					vf.Cover("device has two identical object-groups")
+				}
+			}
+		}
+	}
 	k := len(changes)
 	if cut {
 		k = vf.Int("cut", 0, len(changes))
@@ -592,7 +616,7 @@ func VerifASAACL(cmdInfo string) {
 			// C14 covers line inserts, deletes and moves, not edits of shared groups
 			now := model.verdict(mn, p)
 			vf.Assert(vf.Or(vf.Not(agree), vf.EqInt(now, vA)),
-				"C14: ASA: verdict of a packet on which old and new ACL agree changes at an intermediate step")
+				"C14: ASA: verdict of a packet on which old and new ACL agree changes at an intermediate step"+moveTag)
 		}
 	}
 	lbl := "C01"
@@ -627,7 +651,7 @@ func VerifASAACL(cmdInfo string) {
 	for _, c := range s3.Changes {
 		vf.Note("CHG3:", c)
 	}
-	vf.Assert(len(s3.Changes) == 0, lbl+": ASA: second compare still reports changes")
+	vf.Assert(len(s3.Changes) == 0, lbl+": ASA: second compare still reports changes"+twinTag)
 }
 
 func verifManualShape(c string) string {
